@@ -24,6 +24,15 @@ for pid in ids:
     if pid not in CLAIMED:
         continue
     technique, text, note, ref = CLAIMED[pid]
+    # the level text is the explanation the check itself writes (kept current with the rules that actually run);
+    # the table text is the fallback before the first run
+    try:
+        ev = json.load(open(f"/verif/evidence/{pid}.json"))
+        expl = ev["coverage"]["explanation"]
+        if expl:
+            text = expl
+    except Exception:
+        pass
     checks.append({
         "property_id": pid,
         "quick_cmd": f"./bin/npverif check -p {pid} -tier quick",
